@@ -235,7 +235,7 @@ pub(crate) fn item_matches(got: &ByteOrLabel, want: &Item) -> bool {
         (ByteOrLabel::Label(l), Item::L(w)) => l.as_str() == *w,
         (ByteOrLabel::LabelFn(l, f), Item::Rel(w, addr)) => {
             let t: u8 = vany();
-            l.as_str() == *w && f.deref()(t) == t.wrapping_sub(addr.wrapping_add(2))
+            l.as_str() == *w && (**f)(t) == t.wrapping_sub(addr.wrapping_add(2))
         }
         _ => false,
     }
